@@ -2,13 +2,18 @@
 
 prove:      Props/C16.lean (theorems about Model/Pruners.lean for all histories / parameter settings /
             both directions) + Generated/PrunersInt.lean (integer kernels regenerated from the source,
-            proved equal to the hand model).
+            proved equal to the hand model) + Props/C16ReportGen.lean (the GLUE Trial.report /
+            Trial.should_prune / Fixed+Frozen / _filter_study regenerated from the source as statement
+            IR, proved equal to Model/Pruners.lean reportTrial / shouldPruneTrial / step; see
+            c16_report_gen.py).
 correspond: generated report/should_prune/tell histories are driven through the REAL
             `optuna.create_study(pruner=...)`, `study.ask()`, `trial.report`, `trial.should_prune()`,
             `study.tell` on in-memory studies for every pruner class and a parameter grid, and through
             the Lean model (compiled driver, real crc32 values passed in); every decision, the
             `completed_rung_*` attributes, Hyperband's budgets / bracket and the helper functions are
-            compared.
+            compared.  Every model answer carries "gen" (the same call through the generated glue).
+            c16_report_gen.report_k: one trial object with a recording pruner (stored values, warnings,
+            exceptions, the snapshot handed to the pruner).
 observe:    the protections are checked DIRECTLY on the implementation by an oracle written from the
             docstrings (independent of the Lean model): warm-up, start-up, interval, patience,
             strictly-best, threshold iff, nop, first rung, bracket = f(name, number).
@@ -156,12 +161,13 @@ def better(direction: str, a: float, b: float) -> bool:
     return a < b if direction == "min" else a > b
 
 
-def strictly_best(book: Book, n: int, direction: str) -> bool:
+def strictly_best(book: Book, n: int, direction: str, among: "set[int] | None" = None) -> bool:
+    """every value of trial n is strictly better than every value of every other trial (of `among`, when given)"""
     own = list(book.inter[n].values())
     if not own or any(math.isnan(v) for v in own):
         return False
     for m, d in enumerate(book.inter):
-        if m == n:
+        if m == n or (among is not None and m not in among):
             continue
         for u in d.values():
             if math.isnan(u):
@@ -350,7 +356,9 @@ def _run_ops(case: dict[str, Any], drv: core.Driver | None, want_dump: bool, stu
             if step >= 0 and step not in book.inter[n]:
                 book.inter[n][step] = v
             if drv is not None:
-                drv.ask({"op": "report", "n": n, "step": step, "v": tok})
+                o = drv.ask({"op": "report", "n": n, "step": step, "v": tok})
+                if isinstance(o, dict) and o.get("gen") is not None:  # the same call through the GENERATED Trial.report (c16_report_gen)
+                    res["mismatch"].append({"step": i, "n": n, "what": "generated Trial.report differs from the hand model", "gen": o["gen"]})
         elif kind == "tell":
             _, n, st = op
             if n >= len(trials) or book.state[n] != "running":
@@ -382,6 +390,16 @@ def _run_ops(case: dict[str, Any], drv: core.Driver | None, want_dump: bool, stu
             pre_minres = inner_real._min_resource if inner_spec["k"] == "sh" else None
             must_false = protections(spec, real, book, n, direction)
             exact = exact_expectation(spec, book, n)
+            if inner_spec["k"] == "hyperband" and inner_spec["bootstrap"] == 0 and len(inner_real._pruners) > 0:
+                # Hyperband delegates to the successive-halving pruner of the trial's bracket ON THE BRACKET VIEW (C16ReportGen
+                # hyperband_delegates_to_bracket_view): a trial strictly better than the other trials of ITS bracket is not pruned
+                try:
+                    bids = [inner_real._get_bracket_id(study, study._storage.get_trial(t._trial_id)) for t in trials]
+                    mine = {m for m, b in enumerate(bids) if b == bids[n]}
+                    if strictly_best(book, n, direction, among=mine) and "strictly-best" not in must_false:
+                        must_false.append("strictly-best-in-bracket")
+                except Exception:  # noqa: BLE001 - the bracket walk itself is checked below / by bracket_oracle
+                    pass
             got = bool(trials[n].should_prune())
             last_dec[n] = got
             res["decisions"].append(got)
@@ -424,6 +442,8 @@ def _run_ops(case: dict[str, Any], drv: core.Driver | None, want_dump: bool, stu
                     raise core.DriverBroken("driver: %s" % out)
                 why = out.get("why", {})
                 tag("branch:" + str(why.get("branch")))
+                if out.get("gen") is not None:  # the same call through the GENERATED Trial.should_prune (c16_report_gen)
+                    res["mismatch"].append({"step": i, "n": n, "what": "generated Trial.should_prune differs from the hand model", "gen": out["gen"]})
                 if out["out"] != got:
                     if why.get("branch") == "compare" and near_tie(why):
                         tag("near-tie-accepted")
@@ -938,9 +958,13 @@ def main(chk: core.Check) -> int:
     c16_wilcoxon.prepare(chk)  # Generated/WilcoxonSkel.lean from optuna/pruners/_wilcoxon.py
     from verif.props import c16_skel
     c16_skel.prepare(chk)      # Generated/PrunersSkel.lean: control skeletons of every other pruner
+    from verif.props import c16_report_gen
+    c16_report_gen.regenerate(chk)  # Generated/ReportMethods.lean: Trial.report / should_prune, Fixed/Frozen, _filter_study as statement IR
     chk.rule = RULE + " || " + c16_wilcoxon.RULE
     if not getattr(chk, "no_prove", False):
-        chk.prove(["OptunaVerif.Props.C16", "OptunaVerif.Props.C16Gen"] + c16_wilcoxon.PROPS_MODULES + c16_skel.PROPS_MODULES)
+        chk.prove(["OptunaVerif.Props.C16", "OptunaVerif.Props.C16Gen"] + c16_wilcoxon.PROPS_MODULES + c16_skel.PROPS_MODULES
+                  + [c16_report_gen.MODULE])
+        c16_report_gen.explain_proof_failure(chk)  # names of the obligations of Props/C16ReportGen.lean that no longer check
     try:
         core.ensure_driver()
         drv = core.Driver("pruners")
@@ -962,6 +986,13 @@ def main(chk: core.Check) -> int:
         results = run_cases(chk, cases)
         account(chk, cases, results, with_model=True)
         c16_wilcoxon.correspond(chk, chk.tier)  # WilcoxonPruner.prune against Model/Wilcoxon.lean + docstring oracle
+        try:
+            c16_report_gen.report_k(chk)        # the real Trial.report / should_prune with a recording pruner vs hand model vs generated methods
+        except core.DriverBroken:
+            raise
+        except Exception as e:  # noqa: BLE001
+            import traceback
+            chk.broke("correspondence", {"crash": traceback.format_exc()[-900:], "exc": type(e).__name__, "where": "report_k"})
         try:
             bracket_oracle(chk, 25 if quick else 400)
         except Exception as e:  # the real pruner crashed while being driven: a broken tie, not an infrastructure failure
@@ -989,6 +1020,9 @@ def replay(chk: core.Check, path: str) -> int:
         if w.get("kind") == "wilcoxon":
             from verif.props import c16_wilcoxon
             return c16_wilcoxon.replay_case(chk, w)
+        if w.get("kind") == "report-glue":
+            from verif.props import c16_report_gen
+            return c16_report_gen.replay_case(chk, w)
         if "case" in w:
             res = run_case(w["case"], None)
             if res["violations"]:
@@ -1002,6 +1036,8 @@ def replay(chk: core.Check, path: str) -> int:
         print("witness: %s" % json.dumps(w)[:600])
         return 1
     # no-failing-input-found: re-run the first disagreeing case against the model
+    from verif.props import c16_report_gen
+    c16_report_gen.regenerate()  # the sub-driver `pruners` links Generated/ReportMethods.lean
     core.ensure_driver()
     for b in payload.get("no_longer_checks", []):
         d = b.get("detail", {})
